@@ -56,7 +56,8 @@ pub fn run_c16(cx: &mut Cx) {
     let wk = cx.ch.forced("width_kind", 8, cx.run_index / 6);
     let width: Integer = match wk {
         0 => Integer::from(1), 1 => Integer::from(2), 2 => Integer::from(3),
-        3 => Integer::from(1) << (1 + cx.ch.choose("width_pow", 300) as u32),
+        // (1 in 4: wider than the modulus and than any f64 -- 2^1024 .. 2^1103)
+        3 => if cx.ch.chance("width_beyond_f64", 1, 4) { cx.count("probe.interval_wider_than_2^1024"); Integer::from(1) << (1024 + cx.ch.choose("width_pow_wide", 80) as u32) } else { Integer::from(1) << (1 + cx.ch.choose("width_pow", 300) as u32) },
         4 => (Integer::from(1) << 256u32) - 1,
         // one below a power of two, and just below a perfect square (where an integer square root
         // taken through floating point rounds up): mostly in the 52..64-bit band
